@@ -215,9 +215,11 @@ func (w *world) runCase(c tcase, withHSM bool) (res *caseResult) {
 			btmIn += rec.Amount
 		}
 	}
-	for k, id := range w.particular {
-		if !seen[id] {
-			fail("particular-output-not-spent", fmt.Sprintf("the requested output %s of account %s is not an input", id.String(), acctName[k[0]]), nil)
+	for a := 0; a < 2; a++ {
+		for as := 0; as < 2; as++ {
+			if id, ok := w.particular[[2]int{a, as}]; ok && !seen[id] {
+				fail("particular-output-not-spent", fmt.Sprintf("the requested output %s of account %s is not an input", id.String(), acctName[a]), nil)
+			}
 		}
 	}
 
@@ -388,12 +390,16 @@ func (w *world) runCase(c tcase, withHSM bool) (res *caseResult) {
 	return res
 }
 
-// hsmCompare signs a few templates per spender class with the real pseudo-HSM.
+// hsmCompare signs a few templates per spender class with the real pseudo-HSM: for every class
+// (1-of-1 only, 2-of-3 only, both) the first case of each wanted funding shape.
 func hsmCompare(run *ev.Run, g *global, w *world, cases []tcase) {
-	perClass := run.Pick(2, 4)
-	count := map[string]int{}
+	wanted := []int{fundExactOne, fundMany}
+	if run.Thorough() {
+		wanted = []int{fundExactOne, fundExactTwo, fundChange, fundMany}
+	}
+	done := map[string]bool{}
 	for _, c := range cases {
-		if c.Place != placeConfirmed {
+		if c.Place != placeConfirmed || (c.Signers > 0) {
 			continue
 		}
 		cls := ""
@@ -403,22 +409,31 @@ func hsmCompare(run *ev.Run, g *global, w *world, cases []tcase) {
 		if spends(c.List, acctMulti) {
 			cls += "multi"
 		}
-		// prefer templates with several inputs for the multisig account
-		if count[cls] >= perClass {
+		shape, uniform := -1, true
+		for a := 0; a < 2; a++ {
+			for s := 0; s < 3; s++ {
+				if f := c.Fund[a][s]; f >= 0 {
+					if shape >= 0 && f != shape {
+						uniform = false
+					}
+					shape = f
+				}
+			}
+		}
+		ok := false
+		for _, f := range wanted {
+			ok = ok || f == shape
+		}
+		key := fmt.Sprintf("%s/%d", cls, shape)
+		if !uniform || !ok || done[key] {
 			continue
 		}
-		if count[cls] > 0 && c.fundString() == "" {
-			continue
-		}
-		count[cls]++
+		done[key] = true
 		r := w.runCase(c, true)
 		run.Add("hsm_templates_compared", 1)
 		run.Add("hsm_signatures_made", r.HSMSigs)
 		for _, v := range r.Viols {
 			run.Violation(v.Key, v.What+" | (HSM pass) "+c.String(), map[string]interface{}{"case": c.describe(), "tx": r.Summary, "detail": v.Detail})
-		}
-		if len(count) == 3 && count["single"] >= perClass && count["multi"] >= perClass && count["singlemulti"] >= perClass {
-			break
 		}
 	}
 }
